@@ -123,7 +123,7 @@ def make_case(ctx: Ctx, backend: str, i: int, opts) -> Optional[Dict[str, Any]]:
         body = "(" + ", ".join(c[0] for c in cols) + ("," if ncol == 1 else "") + ")" if ncol > 1 or R.random() < 0.5 else cols[0][0]
     q = f"{src}.Select(lambda {var}: {body})"
     if form == "explicit":
-        tree = R.choice(["mytree", "t", "analysis_tree_2", PREFIX[backend] + "_tree"])
+        tree = R.choice(["mytree", "t", "analysis_tree_2", PREFIX[backend] + "_tree", "run2/jets", "jets;1", "my tree", "t.x", "Ünï_tree", "a:b"])
         lab = repr(names) if ncol > 1 or R.random() < 0.5 else repr(names[0])
         q = f"ResultTTree({q}, {lab}, {tree!r}, 'whatever.root')"
     return {"backend": backend, "query": q, "names": names, "tree": tree, "cols": cols, "form": form, "rows": rows, "odd_names": odd}
@@ -279,9 +279,18 @@ def run(ctx: Ctx) -> int:
                 if nlab == ncol:
                     continue
                 body = "(" + ", ".join(f"e.{C}('A').Count() + {k}" for k in range(ncol)) + ("," if ncol == 1 else "") + ")"
-                q = f"ResultTTree(ds.Select(lambda e: {body}), {[f'n{k}' for k in range(nlab)]!r}, 't', 'f.root')"
-                lreqs.append({"args": {"backend": backend, "query": q, "out": str(ctx.scratch / f"lab{len(lreqs)}")}})
-                lmeta.append((backend, ncol, nlab, q))
+                bodies = [body]
+                if ncol == 1:
+                    # bare (non-tuple) final values: scalar, vector, per-object value
+                    bodies += [f"e.{C}('A').Count()", f"e.{C}('A').Select(lambda j: j.pt())"]
+                for bd in bodies:
+                    q = f"ResultTTree(ds.Select(lambda e: {bd}), {[f'n{k}' for k in range(nlab)]!r}, 't', 'f.root')"
+                    lreqs.append({"args": {"backend": backend, "query": q, "out": str(ctx.scratch / f"lab{len(lreqs)}")}})
+                    lmeta.append((backend, ncol, nlab, q))
+                if ncol == 1:
+                    q = f"ResultTTree(ds.SelectMany(lambda e: e.{C}('A')).Select(lambda j: j.pt()), {[f'n{k}' for k in range(nlab)]!r}, 't', 'f.root')"
+                    lreqs.append({"args": {"backend": backend, "query": q, "out": str(ctx.scratch / f"lab{len(lreqs)}")}})
+                    lmeta.append((backend, ncol, nlab, q))
     for (backend, ncol, nlab, q), r in zip(lmeta, run_batch(lreqs, ctx.scratch)):
         ctx.count("evaluations")
         ctx.count("label_count_cases")
